@@ -78,3 +78,4 @@ mk d66_strict_and_dialect_both      C19-strict-drops-dialect                   f
 mk d67_text_from_get_document       C18-full-sync-shortcut                     fix_c18n.py
 mk d68_dedup_key_all_components     C15-qualified-dedupe-fullname              fix_c15n.py
 mk d69_locations_table_one_pass     C20-recovery-location-rescan               fix_c20n.py
+# d70_cast_chain_iterative: no seed; built by hand from fix_c20p.py on the unchanged tree (see DESIGN §9.9 chain-copy)
